@@ -27,8 +27,9 @@ SYMTEXT = "\u27easymbolic\u27eb"
 class _Ctx:
     def __init__(self):
         self.prefix = []
-        self.taken = []      # [(cond_expr, outcome)]
+        self.taken = []      # [(cond_expr, outcome)] and ('CALL', collaborator, arg_expr, result_var)
         self.limit = 400
+        self.raise_at = None
 
 
 _ctx = _Ctx()
@@ -61,8 +62,8 @@ class SBool:
 
     def __bool__(self):
         c = _ctx
-        i = len(c.taken)
-        if i >= c.limit:
+        i = sum(1 for t in c.taken if t[0] != 'CALL')
+        if len(c.taken) >= c.limit:
             raise Untraceable("more than %d decisions on one path" % c.limit)
         out = c.prefix[i] if i < len(c.prefix) else True
         c.taken.append((self._sym, out))
@@ -214,6 +215,32 @@ class SInt(int):
     del _no
 
 
+# ---- calls to collaborators ---------------------------------------------------------------------------------
+class Collaborator:
+    """Stands in for an object the code under trace calls into but which is translated separately (an address
+    or instance-byte object: their `add_to_frame` is tied by Tie/Address.lean).  `call(arg)` records the call on
+    the current path and returns a fresh symbolic integer for its result; in the printed Lean definition the
+    collaborator becomes a parameter `name : Int -> Except PyErr Int` and the call a bind (its error propagates
+    unchanged, which `Entry.trace` confirms by raising a marker exception from each call site in turn)."""
+
+    def __init__(self, name):
+        self.name = name
+
+    def call(self, arg):
+        c = _ctx
+        k = sum(1 for t in c.taken if t[0] == 'CALL')
+        if c.raise_at is not None and c.raise_at == k:
+            c.taken.append(('CALL', self.name, _e(arg), None))
+            raise CollaboratorError()
+        var = "r%d" % (k + 1)
+        c.taken.append(('CALL', self.name, _e(arg), var))
+        return SInt(var)
+
+
+class CollaboratorError(Exception):
+    """raised by a stub collaborator to see whether the code under trace lets it through unchanged"""
+
+
 # ---- path enumeration ---------------------------------------------------------------------------------------
 def explore(run, max_paths=4000):
     """`run()` performs the call under trace with fresh symbolic arguments and returns a leaf description
@@ -232,9 +259,10 @@ def explore(run, max_paths=4000):
         paths.append((taken, leaf))
         if len(paths) > max_paths:
             raise Untraceable("more than %d paths" % max_paths)
-        for i in range(len(prefix), len(taken)):
+        decisions = [t[1] for t in taken if t[0] != 'CALL']
+        for i in range(len(prefix), len(decisions)):
             # decisions beyond the prefix defaulted to True: schedule the False branch
-            stack.append([o for (_, o) in taken[:i]] + [False])
+            stack.append(decisions[:i] + [False])
     _ctx.prefix, _ctx.taken = [], []
     return _build(paths, 0), len(paths)
 
@@ -242,15 +270,37 @@ def explore(run, max_paths=4000):
 def _build(paths, depth):
     if len(paths) == 1 and len(paths[0][0]) == depth:
         return ('leaf', paths[0][1])
-    conds = {p[0][depth][0] for p in paths if len(p[0]) > depth}
-    if len(conds) != 1 or any(len(p[0]) <= depth for p in paths):
+    if any(len(p[0]) <= depth for p in paths):
         raise Untraceable("the code under trace is not deterministic (paths disagree at depth %d)" % depth)
-    cond = conds.pop()
+    heads = {p[0][depth] if p[0][depth][0] == 'CALL' else p[0][depth][0] for p in paths}
+    if len(heads) != 1:
+        raise Untraceable("the code under trace is not deterministic (paths disagree at depth %d)" % depth)
+    head = heads.pop()
+    if head[0] == 'CALL':
+        return ('bind', head[1], head[2], head[3], _build(paths, depth + 1))
+    cond = head
     t = [p for p in paths if p[0][depth][1]]
     f = [p for p in paths if not p[0][depth][1]]
     if not t or not f:
         raise Untraceable("incomplete exploration at depth %d" % depth)
     return ('node', cond, _build(t, depth + 1), _build(f, depth + 1))
+
+
+def _max_calls(tree):
+    if tree[0] == 'leaf':
+        return 0
+    if tree[0] == 'bind':
+        return 1 + _max_calls(tree[4])
+    return max(_max_calls(tree[2]), _max_calls(tree[3]))
+
+
+def _leaves_after_call(tree, k, seen=0):
+    """leaves of the paths on which collaborator call number k was made (and raised)"""
+    if tree[0] == 'leaf':
+        return [tree[1]] if seen > k else []
+    if tree[0] == 'bind':
+        return _leaves_after_call(tree[4], k, seen + 1)
+    return _leaves_after_call(tree[2], k, seen) + _leaves_after_call(tree[3], k, seen)
 
 
 def outcome(thunk, describe):
@@ -291,10 +341,20 @@ def evb(c, env):
     return {'lt': a < b, 'le': a <= b, 'gt': a > b, 'ge': a >= b, 'eq': a == b, 'ne': a != b}[op]
 
 
-def run_tree(tree, env):
-    while tree[0] == 'node':
-        tree = tree[2] if evb(tree[1], env) else tree[3]
-    return tree[1]
+def run_tree(tree, env, collaborators=None):
+    """evaluate a tree on concrete values; `collaborators[name](int) -> int` (may raise) answers the binds"""
+    env = dict(env)
+    while tree[0] != 'leaf':
+        if tree[0] == 'node':
+            tree = tree[2] if evb(tree[1], env) else tree[3]
+        else:
+            _, name, arg, var, sub = tree
+            try:
+                env[var] = collaborators[name](ev(arg, env))
+            except Exception as e:      # noqa
+                return ('raise', type(e).__name__)
+            tree = sub
+    return tree[1] if tree[1][0] == 'raise' else ('ok', ev_val(tree[1][1], env))
 
 
 def constants(tree, acc=None):
@@ -312,6 +372,9 @@ def constants(tree, acc=None):
         walk(tree[1])
         constants(tree[2], acc)
         constants(tree[3], acc)
+    elif tree[0] == 'bind':
+        walk(tree[2])
+        constants(tree[4], acc)
     else:
         walk(tree[1])
     return acc
@@ -353,6 +416,9 @@ def lean_of_tree(tree, leaf, indent=2):
     pad = " " * indent
     if tree[0] == 'leaf':
         return pad + leaf(tree[1])
+    if tree[0] == 'bind':
+        return "%smatch %s %s with\n%s| .error e => .error e\n%s| .ok %s =>\n%s" % (
+            pad, tree[1], lean_expr(tree[2]), pad, pad, tree[3], lean_of_tree(tree[4], leaf, indent + 2))
     return "%sif %s then\n%s\n%selse\n%s" % (pad, lean_cond(tree[1]), lean_of_tree(tree[2], leaf, indent + 2),
                                              pad, lean_of_tree(tree[3], leaf, indent + 2))
 
@@ -431,9 +497,10 @@ class Entry:
     """name, params (names of the Int parameters), lean_type (of the `ok` payload), call(args) -> python result
     (already reduced to ints / bools / tuples by the plugin's wrapper)."""
 
-    def __init__(self, name, params, lean_type, call, doc="", wide=()):
+    def __init__(self, name, params, lean_type, call, doc="", wide=(), collaborators=()):
         self.name, self.params, self.lean_type, self.call, self.doc = name, params, lean_type, call, doc
         self.wide = set(wide)       # parameters that may take values of any size when validating
+        self.collaborators = list(collaborators)    # names of the function parameters (see Collaborator)
         self.tree = None
         self.npaths = 0
 
@@ -442,13 +509,21 @@ class Entry:
             args = {p: SInt(p) for p in self.params}
             return outcome(lambda: self.call(args), val)
         self.tree, self.npaths = explore(run)
+        # a collaborator's exception must leave the traced code unchanged (that is what the printed bind says)
+        ncalls = _max_calls(self.tree)
+        for k in range(ncalls):
+            _ctx.raise_at = k
+            try:
+                t2, _ = explore(run)
+            finally:
+                _ctx.raise_at = None
+            for leaf in _leaves_after_call(t2, k):
+                if leaf != ('raise', 'CollaboratorError'):
+                    raise Untraceable("an exception raised by collaborator call %d does not propagate unchanged" % k)
         return self
 
-    def eval_tree(self, env):
-        leaf = run_tree(self.tree, env)
-        if leaf[0] == 'raise':
-            return leaf
-        return ('ok', ev_val(leaf[1], env))
+    def eval_tree(self, env, collaborators=None):
+        return run_tree(self.tree, env, collaborators)
 
     def eval_real(self, env):
         try:
@@ -465,11 +540,14 @@ class Entry:
                 return ".error .%s" % l[1]
             return ".ok (%s)" % lean_val(l[1])
         ps = " ".join(self.params)
+        cs = "".join(" (%s : Int → Except PyErr Int)" % c for c in self.collaborators)
         doc = "/-- %s (%d paths) -/\n" % (self.doc or self.name, self.npaths)
-        return "%sdef %s (%s : Int) : Except PyErr (%s) :=\n%s\n" % (
-            doc, self.name, ps, self.lean_type, lean_of_tree(self.tree, leaf))
+        return "%sdef %s%s (%s : Int) : Except PyErr (%s) :=\n%s\n" % (
+            doc, self.name, cs, ps, self.lean_type, lean_of_tree(self.tree, leaf))
 
     def validate(self, rng, n=400, pool=None):
+        if self.collaborators:
+            return []       # entries with collaborators are validated by their plugin (real objects as collaborators)
         """the traced tree against the real code on concrete points (boundary-biased)"""
         cs = sorted(constants(self.tree))
         base = set(pool or [])
